@@ -266,6 +266,18 @@ func (h *hist) cacheCorr(a int, impl string) {
 	h.r.Check("C05", "keys.tree-cache", append(append([]string{fmt.Sprintf("reset %d", h.n())}, h.ops...), q), model, "cache="+impl)
 }
 
+// cacheTouch reports a touch of the long-lived tree of account a to the model at once.
+func (h *hist) cacheTouch(a int) {
+	rp := h.tree.reps[a]
+	if len(h.r.ModelCmd) == 0 || rp.touches == 0 {
+		return
+	}
+	q := fmt.Sprintf("touch %d", a)
+	h.ops = append(h.ops, q)
+	h.r.Ask(q)
+	rp.touches = 0
+}
+
 func Run(r *corr.Run) {
 	if pf := os.Getenv("KEYS_PROF"); pf != "" {
 		f, _ := os.Create(pf)
